@@ -1,0 +1,50 @@
+//go:build verif
+
+// Copyright The Notary Project Authors.
+// Licensed under the Apache License, Version 2.0 (the "License");
+// you may not use this file except in compliance with the License.
+// You may obtain a copy of the License at
+//
+// http://www.apache.org/licenses/LICENSE-2.0
+//
+// Unless required by applicable law or agreed to in writing, software
+// distributed under the License is distributed on an "AS IS" BASIS,
+// WITHOUT WARRANTIES OR CONDITIONS OF ANY KIND, either express or implied.
+// See the License for the specific language governing permissions and
+// limitations under the License.
+
+package file
+
+import (
+	"os"
+	"strconv"
+	"strings"
+	"sync/atomic"
+	"syscall"
+)
+
+// VerifWriteFileHook, when set, is called at every step boundary of WriteFile
+// ("temp_created", "content_written", "closed", "return"). Verification
+// instrumentation only: it exists only in builds with the verif tag.
+var VerifWriteFileHook func(step, tmp, path string)
+
+var verifKillCount atomic.Int64
+
+// verifHook calls VerifWriteFileHook and, when the environment variable
+// VERIF_WF_KILL=<step>:<n> is set, kills the own process with SIGKILL at the
+// n-th occurrence of <step>.
+func verifHook(step, tmp, path string) {
+	if h := VerifWriteFileHook; h != nil {
+		h(step, tmp, path)
+	}
+	if spec := os.Getenv("VERIF_WF_KILL"); spec != "" {
+		s, n, _ := strings.Cut(spec, ":")
+		if s == step {
+			want, _ := strconv.ParseInt(n, 10, 64)
+			if verifKillCount.Add(1) == want {
+				syscall.Kill(os.Getpid(), syscall.SIGKILL)
+				select {}
+			}
+		}
+	}
+}
